@@ -60,6 +60,28 @@ def walk_stage(lib):
                     col.bump("api_walk_compiles")
             finally:
                 A.os = os
+        # same files in sub-folders under IDENTICAL base names (package.mo layout), walked by the real os.walk:
+        # must give the same models as the flat layout
+        d2 = tempfile.mkdtemp(prefix="c27n_")
+        try:
+            for i, txt in enumerate(h.FILES):
+                for k, v in enumerate((3, 4, 5, 6)):
+                    txt = txt.replace(str(7001 + k), str(v))
+                sub = os.path.join(d2, *[f"s{j}" for j in range(i + 1)])
+                os.makedirs(sub, exist_ok=True)
+                open(os.path.join(sub, "package.mo"), "w").write(txt)
+            for name in h.NAMES:
+                try:
+                    m = A._compile_model(d2, name, A._merge_default_options({}))
+                    sig = ("ok", [v.symbol.name() for v in m.states + m.alg_states + m.parameters + m.constants], [str(e) for e in m.equations])
+                except Exception as e:
+                    sig = ("raise", type(e).__name__)
+                sigs.setdefault(name, {})[("same-base-names",)] = sig
+                col.bump("api_walk_compiles")
+        finally:
+            shutil.rmtree(d2, ignore_errors=True)
+        if sigs and all(by[h.PERMS[0]][0] == "raise" for by in sigs.values()):
+            col.bump("walk_stage_vacuous_libraries")  # the CasADi generator rejects every class of this library
         for name, by in sigs.items():
             base = by[h.PERMS[0]]
             for perm, sig in by.items():
@@ -124,7 +146,7 @@ def main():
         for col in run_parallel(walk_stage, LIBNAMES, a.jobs):
             rep.merge(col)
     else:
-        for col in run_parallel(walk_stage, ["nested", "pkgconst"], a.jobs):
+        for col in run_parallel(walk_stage, ["plain", "placeholder-only", "nested"], a.jobs):
             rep.merge(col)
     cov = rep.coverage
     cov["states"] = max(1, n["confirmed"])
